@@ -142,7 +142,31 @@ func padTo(b []byte, n int) []byte {
 // "caller's arguments are left unmodified" clause.
 func nmfCall(k nmfCase) (f *of.MatchField, err error, argBefore, argAfter string) {
 	v := k.input
-	w := k.win
+	// the window arguments are spread from a slice that has spare capacity behind them, as a caller
+	// holding (offset, width, mode) triples and passing the first one or two does: nothing of that
+	// slice, the spare part included, is the builder's to write
+	full := append(append(make([]int, 0, len(k.win)+3), k.win...), 0x5a5a, 0x5a5b, 0x5a5c)
+	w := full[:len(k.win)]
+	winBefore := fmt.Sprint(full)
+	defer func() {
+		argBefore += " window-args " + winBefore
+		argAfter += " window-args " + fmt.Sprint(full)
+	}()
+	// field names are case-insensitive: the spelling varies with the case
+	name := k.name
+	switch (v.BitLen() + len(k.win)) % 3 {
+	case 1:
+		name = strings.ToLower(name)
+	case 2:
+		b := []byte(name)
+		for i := range b {
+			if i%2 == 1 && b[i] >= 'A' && b[i] <= 'Z' {
+				b[i] += 32
+			}
+		}
+		name = string(b)
+	}
+	k.name = name
 	switch k.vtype {
 	case "uint8":
 		f, err = of.NewMatchField(k.name, uint8(v.Uint64()), w...)
